@@ -14,11 +14,21 @@ TapeRun rc_tapes(uint64_t seed, int cases, int max_size, double scale, const Tap
   rc::detail::TestMetadata md;
   md.id = "tape";
   md.description = "tape";
-  auto gen = rc::gen::scale(scale, rc::gen::container<std::vector<uint64_t>>(rc::gen::arbitrary<uint64_t>()));
+  // Only the LENGTH of the tape is stretched by `scale`; the words themselves are generated at the
+  // unscaled size (scaling them too pushes arbitrary<uint64_t> past its range and biases the bits).
+  auto gen = rc::gen::scale(scale, rc::gen::container<std::vector<uint64_t>>(rc::gen::scale(1.0 / scale, rc::gen::arbitrary<uint64_t>())));
+  long shrink_calls = 0;
+  const long kMaxShrinkCalls = 4000;
   auto result = rc::detail::checkTestable(
       [&] {
         const auto tape = *gen;
         out.cases++;
+        // Bound the shrinking effort: after the first failure at most kMaxShrinkCalls further
+        // candidates are evaluated; later candidates are reported as passing, which ends the
+        // shrink search with the smallest failing tape found so far.
+        if (!out.tape.empty() || !out.message.empty()) {
+          if (++shrink_calls > kMaxShrinkCalls) return;
+        }
         std::string m = prop(tape);
         if (!m.empty()) {
           out.tape = tape;
